@@ -54,10 +54,15 @@ NTs(e) == [i \in 1..Len(e.ts) |-> MaybeConj(reg[e.ts[i]], e.conjs[i])]
 SwapPairs(T, e) == [j \in 1..Len(e.pairs) |-> <<NatSet(T, e.pairs[j][1]), NatSet(T, e.pairs[j][2])>>]
 
 BlkOps(e) == [i \in 1..Len(e.ts) |-> reg[e.ts[i]]]
+(* "route": the value already held in register a reached another way (e.how): sum_k x_k . conj(y_k) over the first three legs through fuse -> block -> one tensordot;  *)
+(* the open legs may carry every sector of the operands' open legs (maximal admissible sets)                                                                          *)
+RECURSIVE UnionLegs(_, _, _)
+UnionLegs(rs, ax, k) == IF k = 1 THEN reg[rs[1]].legs[ax] ELSE UnionLeg(UnionLegs(rs, ax, k - 1), reg[rs[k]].legs[ax])
+RouteRef(e) == [A(e) EXCEPT !.legs = <<UnionLegs(e.xs, 4, Len(e.xs)), IF "em" \in DOMAIN e THEN reg[e.em].legs[2] ELSE UnionLegs(e.ys, 4, Len(e.ys))>>]
 Pre(e) == CASE e.op = "lincomb"   -> SameShape(A(e), B(e))
             [] e.op = "block"     -> PreBlock(BlkOps(e), e.pos)
             [] e.op = "add3"      -> SameShape(A(e), B(e)) /\ SameShape(A(e), reg[e.c])
-            [] e.op \in {"scale", "conj", "conj_blocks", "flip_signature", "copy", "consume_transpose"} -> TRUE
+            [] e.op \in {"scale", "conj", "conj_blocks", "flip_signature", "copy", "consume_transpose", "route"} -> TRUE
             [] e.op = "flip_charges" -> SetOf(e.axes) \subseteq 1..LRank(A(e)) /\ ~A(e).dg /\ \A k \in SetOf(e.axes) : A(e).grp[k] = Leaf
             [] e.op = "transpose" -> IsPerm(G1(e.p), LRank(A(e)))
             [] e.op = "tensordot" -> PreDot(MaybeConj(A(e), e.conj[1]), MaybeConj(B(e), e.conj[2]), G1(e.la), G1(e.lb))
@@ -79,6 +84,7 @@ Ref(e) == CASE e.op = "lincomb"   -> LinComb(A(e), Amp(e, 1), B(e), Amp(e, 2))
             [] e.op = "conj_blocks" -> ConjBlocks(A(e))
             [] e.op = "flip_signature" -> FlipSignature(A(e))
             [] e.op \in {"copy", "consume_transpose"} -> A(e)
+            [] e.op = "route"     -> RouteRef(e)
             [] e.op = "flip_charges" -> FlipCharges(A(e), NatSet(A(e), e.axes))
             [] e.op = "transpose" -> Transpose(A(e), G1(e.p))
             [] e.op = "tensordot" -> Dot(MaybeConj(A(e), e.conj[1]), MaybeConj(B(e), e.conj[2]), G1(e.la), G1(e.lb))
